@@ -21,7 +21,7 @@ func init() {
 		Rule:        "one obligation per (rule, function/specialisation, exit | site); non-trivial = decided by exploring the product of the CFG with the protocol automaton or by a provenance query",
 		Assumptions: []string{"sync/atomic operations are sequentially consistent", "C13/C14 (lock pairing, access discipline) checked separately"}}
 	Metas["C04"] = Meta{Explanation: expl("MapOf", "(P1') the lock-free reader returns the value field of the one entry pointer it loaded atomically and whose key field it compared equal with =="),
-		Rule:        Metas["C03"].Rule, Assumptions: Metas["C03"].Assumptions}
+		Rule: Metas["C03"].Rule, Assumptions: Metas["C03"].Assumptions}
 }
 
 func mapProtocol(r *Run, prop string, idx int) *core.Report {
